@@ -367,7 +367,10 @@ def ulp_bound(K, prec):
 def parse_num(s):
     """exact value of a number printed by the harness (%a hex float or decimal integer)"""
     if s in ('nan', '-nan', 'inf', '-inf'): return s.lstrip('-') if 'nan' in s else s
-    if 'x' in s or 'p' in s:
-        return Fraction(float.fromhex(s))
-    if '.' in s or 'e' in s: return Fraction(float(s))
-    return Fraction(int(s))
+    try:
+        if 'x' in s or 'p' in s:
+            return Fraction(float.fromhex(s))
+        if '.' in s or 'e' in s: return Fraction(float(s))
+        return Fraction(int(s))
+    except (ValueError, OverflowError):
+        return 'unparsable:' + s      # e.g. a line cut short by a crash
